@@ -387,7 +387,8 @@ func (g *Gen) opUnsubscribe(conns []*Client) {
 	case k == 14:
 		params = fmt.Sprintf(`{"count":%d}`, d+1)
 	case k == 15:
-		params = g.sample("badcount", []string{`{"count":0}`, `{"count":-1}`, `{"count":"x"}`, `{"count":true}`, `{"count":256}`, `{"count":257}`})
+		params = g.sample("badcount", []string{`{"count":0}`, `{"count":-1}`, `{"count":"x"}`, `{"count":true}`, `{"count":256}`, `{"count":257}`,
+			`{"count":18446744073709551615}`, `{"count":9223372036854775808}`, `{"count":9223372036854775807}`, `{"count":4294967296}`, `{"count":-9223372036854775808}`, `{"count":18446744073709551616}`, `{"count":1.0}`, `{"count":1e0}`})
 	case k == 16 && len(g.p.UnsubParams) > 0:
 		params = g.sample("xparams", g.p.UnsubParams)
 	default:
